@@ -4,7 +4,7 @@
 wt=$1; name=$2; shift 2
 out=/tmp/w5/result-$name.txt
 {
-  /verif/tools/seedconfirm.sh "$wt" "$name" 'TestSeedDemo' 2>&1 | tail -4
+  /verif/tools/seedconfirm.sh "$wt" "$name" 'SeedDemo' 2>&1 | tail -4
   if grep -q '^CONFIRMED' /verif/seeded/$name/confirm.log; then
     /verif/tools/seedrun.sh "$name" "$@" 2>&1 | tail -6
   fi
